@@ -2048,3 +2048,11 @@ V("C08", "method_reference_owner_hoisted_and_rebound", "fire", "R08.w", (Z, """ 
         for arg in (args + kwargs):
             if isinstance(arg, str):
                 if arg in owner.param:"""), (Z, "                    for attr in path[:-1]:\n                        arg = getattr(arg, attr)\n                    arg = arg.param[path[-1]]", "                    for attr in path[:-1]:\n                        owner = arg = getattr(arg, attr)\n                    arg = arg.param[path[-1]]"))
+
+# ======================================================================= C20
+V("C20", "one_tuple_without_trailing_comma", "fire", "R20.a", (Z, "        d1,d2='(',(',)' if len(result)==1 else ')')", "        d1,d2='(',')'"))
+V("C20", "container_elements_printed_with_repr", "fire", "R20.a", (Z, "        result.append(pprint(i,imports,prefix,settings))", "        result.append(repr(i))"))
+V("C20", "float_printer_not_registered", "fire", "R20.b", (Z, "script_repr_reg[float] = float_script_repr\n", ""))
+V("C20", "float_printer_forgets_nan", "fire", "R20.b", (Z, "    if rep in ('inf', '-inf', 'nan'):", "    if rep in ('inf', '-inf'):"))
+V("C20", "benign_tuple_delimiters_in_two_steps", "benign", None, (Z, "        d1,d2='(',(',)' if len(result)==1 else ')')", "        d1,d2='(',')'\n        if len(result)==1:\n            d2=',)'"))
+V("C20", "benign_float_printer_membership_as_list", "benign", None, (Z, "    if rep in ('inf', '-inf', 'nan'):", "    if rep in ['nan', 'inf', '-inf']:"))
